@@ -11,6 +11,7 @@ from __future__ import annotations
 
 import multiprocessing as mp
 import os
+import sys
 import re
 import struct
 import subprocess
@@ -260,10 +261,11 @@ def run_cvc5(smt2: str, timeout_s: float) -> tuple[str, str, float]:
         path = fh.name
     try:
         p = subprocess.run(
-            [CVC5_BIN, "--strings-exp", "--produce-models", f"--tlimit={int(timeout_s * 1000)}", path],
+            [sys.executable, "-m", "pyvc.cvc5_runner", path, str(int(timeout_s * 1000))],
             capture_output=True,
             text=True,
-            timeout=timeout_s + 5,
+            timeout=timeout_s + 8,
+            cwd=os.path.dirname(os.path.dirname(os.path.abspath(__file__))),
         )
         out = (p.stdout or "").strip().splitlines()
         res = out[0].strip() if out else "unknown"
@@ -467,7 +469,7 @@ def discharge(obs: list[Obligation], tier: str = "quick", jobs: int | None = Non
         with ThreadPoolExecutor(max_workers=jobs) as ex:
             for i, f in {i: ex.submit(run_cvc5, texts[i], 3.0) for i in left}.items():
                 res, detail, secs = f.result()
-                record(i, res, detail, secs, "cvc5-1.0.3")
+                record(i, res, detail, secs, "cvc5-1.4.0")
         left = [i for i in left if verdicts[i].result == "unknown"]
     if left:
         with ThreadPoolExecutor(max_workers=max(2, jobs // 2)) as ex:
@@ -477,7 +479,7 @@ def discharge(obs: list[Obligation], tier: str = "quick", jobs: int | None = Non
                 record(i, res, detail, secs, zver)
             for i, f in futs.items():
                 res, detail, secs = f.result()
-                record(i, res, detail, secs, "cvc5-1.0.3")
+                record(i, res, detail, secs, "cvc5-1.4.0")
     if tier == "thorough":
         # cross-solver check: every solver-discharged obligation is also given to the *other* solver; a
         # definite disagreement (unsat vs sat) withdraws the verdict (reported undecided, never a pass)
